@@ -288,6 +288,9 @@ func init() {
 			return fmt.Errorf("cannot start node: %v", err)
 		}
 		defer func() { node.in.Close(); node.cmd.Wait() }()
+		if err := c09XmlStages(c); err != nil {
+			return err
+		}
 		var pool [][]byte
 		for _, d := range docs {
 			if len(d.data) < 200000 {
@@ -397,7 +400,7 @@ func init() {
 			run(d, m, cfg, mutated)
 		}
 		for _, k := range h.Known("C09") {
-			if k.Status != "open" {
+			if k.Status != "open" || (len(k.ID) > 6 && (k.ID[6] < '0' || k.ID[6] > '9')) { // K-C09-<Slice>-n entries are replayed by their slice
 				continue
 			}
 			var o1, o2 bytes.Buffer
